@@ -209,6 +209,11 @@ func (r *Router) cacheDynamicRoute(key string, ps Params, route *Route) {
 		return
 	}
 
+	// caching was switched on after the routes were added: there is no cache container yet
+	if r.cachedRoutes == nil {
+		return
+	}
+
 	// copy new route instance. Notice: cache matched Params
 	r.cachedRoutes.Set(key, route.copyWithParams(ps))
 }
